@@ -12,7 +12,8 @@ SPEC = dict(
          'expansion to depth 3 and re-serialization; (d) one stream element x every chunking x trailing bytes x reader. Distinct = distinct '
          'case name (the enumeration indices); non-trivial = at least one libksi call was compared with the reference tree model '
          '(harness/ref/ref_tlvtree.c). Within a case each disagreement signature is reported once; all instances are counted (dev:<sig>). '
-         'Further: a refused expansion is asked again (still refused, payload unchanged); after the final detach of an edit sequence the element\'s own buffer must be its encoding.',
+         'Further: a refused expansion is asked again (still refused, payload unchanged); after the final detach of an edit sequence the element\'s own buffer must be its encoding. '
+         'Truncated streams are read into buffers pre-filled with ee / 00 / 01 and into a larger buffer.',
     bounds=dict(
         quick='(a) all 2^16 two-byte prefixes; TLV16 prefixes with declared lengths {0,1,3,255,256,257}; plus all 1-byte inputs and the empty input; '
               'each input in an exactly sized heap block through KSI_FTLV_memRead, KSI_FTLV_memReadN (count and array), KSI_TLV_parseBlob + getNestedList, '
